@@ -242,11 +242,14 @@ def part_three_corruptions(ctx, t):
                     "wrong-l": labels[:i] + [wrong_l] + labels[i + 1 :],
                 }
                 for kind, bad in variants.items():
-                    for direction in ("bad-second", "bad-first"):
+                    for direction in ("bad-second", "bad-first", "bad-both", "bad-both-reordered"):
                         for reverse in (False, True):
                             ctx.count()
                             ctx.nontrivial(("corrupt", tuple(labels), kind, i, direction, reverse))
-                            args = (labels, bad) if direction == "bad-second" else (bad, labels)
+                            # the same corrupted table on both sides (as is, or rotated by one position) names no valid function set either
+                            args = {"bad-second": (labels, bad), "bad-first": (bad, labels), "bad-both": (bad, bad), "bad-both-reordered": (bad, bad[1:] + bad[:1])}[direction]
+                            if direction.startswith("bad-both") and kind in ("delete", "foreign", "wrong-l"):
+                                continue  # consistently shorter / renamed tables are self-consistent conventions of another function set
                             try:
                                 res = _convert_convention_shell(list(args[0]), list(args[1]), reverse)
                             except Exception:  # noqa: BLE001 - any exception is a rejection
